@@ -152,7 +152,7 @@ struct Cfg {
     check: bool,
     skew: i64,
     sct: bool,
-    /// 0 = time-outs of 1 h, 1 = 1 ms, 2 = 40 ms (per-object staleness cases)
+    /// 0 = time-outs of 1 h, 1 = 1 ms, 2 = 500 ms (per-object staleness cases)
     fast: u8,
 }
 
@@ -190,7 +190,10 @@ fn make_rx(c: &Cfg, count: bool) -> Rx {
     let builder = Rc::new(RecBuilder { log: log.clone(), cur_fdt: cur_fdt.clone() });
     let to = match c.fast {
         1 => Duration::from_millis(1),
-        2 => Duration::from_millis(40),
+        // per-object staleness cases: the only direction that races with the machine load is "NOT yet timed out"
+        // (a few calls between a push and the cleanup, nominally < 1 ms): 500 ms = a margin of > 100x; the
+        // "timed out" direction is a sleep LONGER than the time-out, which no load can shorten
+        2 => Duration::from_millis(500),
         _ => Duration::from_secs(3600),
     };
     let config = RxConfig {
@@ -311,11 +314,13 @@ impl RecvEngine {
             //   :announced-block <= 4 x (first two source blocks + per-symbol tables + block table that the
             //                    EXT_FTI of this TOI announces), the announcement itself being limited by the
             //                    codes' K maxima (No-Code 65536 since ee3ccfa) times the 16-bit symbol length
-            // since 2037586 the document stops at MAX_FDT_SIZE: both FDT classes are also bounded by 8 copies of it
-            let fdt_cap = call_bound + 8 * MAX_FDT_SIZE;
-            let cls = if self.cur_is_toi0 && !self.cur_encoded && peak <= fdt_cap && peak <= call_bound + 64 * got.min(self.sh.max_len() as i64) {
+            // since 2037586 the document stops at MAX_FDT_SIZE.  Measured with the cap: a refused 20 MB inflate peaks at
+            // 20.2 MB and holds nothing afterwards; a plain document is copied / parsed a few times.  Bounds: inflated
+            // peak <= 2 x MAX_FDT_SIZE and <= 2 MiB + MAX_FDT_SIZE still held; plain peak <= 4 x MAX_FDT_SIZE.
+            // (the pre-fix witness - 21 kB -> 105 MB peak, 63 MB held - is `:unexplained` under these)
+            let cls = if self.cur_is_toi0 && !self.cur_encoded && peak <= call_bound + 4 * MAX_FDT_SIZE && peak <= call_bound + 64 * got.min(self.sh.max_len() as i64) {
                 "C04:alloc-per-call:fdt-document"
-            } else if self.cur_is_toi0 && self.cur_encoded && peak <= fdt_cap && peak <= call_bound + 8 * 1032 * got {
+            } else if self.cur_is_toi0 && self.cur_encoded && peak <= call_bound + 2 * MAX_FDT_SIZE && grown <= call_bound + MAX_FDT_SIZE && peak <= call_bound + 8 * 1032 * got {
                 "C04:alloc-per-call:fdt-inflated"
             } else if peak <= call_bound + 4 * (ann_blocks + ann_table) {
                 "C04:alloc-per-call:announced-block"
@@ -329,10 +334,12 @@ impl RecvEngine {
                 );
             }
         }
-        if dt > Duration::from_secs(2) {
+        // wall clock, judged on a possibly heavily loaded machine: 20 s is > 20x the slowest legitimate call seen
+        // (0.9 s, a 60 MB inflate); a real hang is the watchdog's business
+        if dt > Duration::from_secs(20) {
             // explicit bound of the explained class: 2 s + 1 s per 64 MiB announced
             let ann = ann_blocks + ann_table;
-            let cls = if ann >= 64 * 1024 * 1024 && dt <= Duration::from_secs(2 + (ann / (64 * 1024 * 1024)) as u64) { "C04:slow-call:announced-block" } else { "C04:slow-call:unexplained" };
+            let cls = if ann >= 64 * 1024 * 1024 && dt <= Duration::from_secs(20 + (ann / (64 * 1024 * 1024)) as u64) { "C04:slow-call:announced-block" } else { "C04:slow-call:unexplained" };
             if self.heap_reported.insert(cls.to_string()) {
                 o.fail(cls, &format!("{} took {:?} (announced by the FTI of this TOI: {} B)", what, dt, ann));
             }
@@ -351,7 +358,7 @@ impl RecvEngine {
                 "C17:heap:block-table-prealloc"
             } else if excess <= 4 * (sum_blocks + sum_table) {
                 "C17:heap-first-two-blocks"
-            } else if excess <= 2 * self.grown_toi0 && excess <= 2 * (10 + unfinished) * MAX_FDT_SIZE {
+            } else if excess <= 2 * self.grown_toi0 && excess <= (10 + unfinished) * (MAX_FDT_SIZE + MAX_FDT_SIZE / 4) {
                 // since 2037586 an FDT document holds at most MAX_FDT_SIZE bytes: 10 current instances + the
                 // unfinished ones, document + parsed form
                 "C17:heap:fdt-bytes"
@@ -383,9 +390,19 @@ impl RecvEngine {
                         }
                     }
                 }
-                b'c' => h.complete += 1,
-                b'e' => h.error += 1,
-                b'i' => h.interrupted += 1,
+                // the object is over: what its FTI announced no longer explains any heap
+                b'c' => {
+                    h.complete += 1;
+                    self.ann.remove(toi);
+                }
+                b'e' => {
+                    h.error += 1;
+                    self.ann.remove(toi);
+                }
+                b'i' => {
+                    h.interrupted += 1;
+                    self.ann.remove(toi);
+                }
                 b'w' => {
                     let len: u64 = e.rsplit(':').next().and_then(|x| x.parse().ok()).unwrap_or(0);
                     h.bytes += len;
@@ -454,6 +471,8 @@ impl RecvEngine {
         let obs = self.observe(r, evs, dt, now, o, "push_data");
         if let Some(id) = done {
             self.sh.completed_call(id, &obs);
+            // the FDT object of that instance is over as well
+            self.ann.remove(&(u128::MAX - id as u128));
         }
         // ---- C19: a receiver clock skew of any size does not change the outcome (SCT present)
         if let Some(rx0) = self.rx0.as_mut() {
@@ -684,7 +703,13 @@ impl Engine for RecvEngine {
                 if std::env::var("RECV_DUMP").is_ok() {
                     eprintln!("{}", d);
                 }
-                probe::probe(&d)
+                match probe::probe(&d) {
+                    Ok(line) => line,
+                    Err(field) => {
+                        o.fail("harness:scrape-miss", &format!("the Debug output of Receiver has no `{}`: the probe cannot be read", field));
+                        format!("scrape-miss {}", field)
+                    }
+                }
             }
             "fzc" if t.len() >= 3 => {
                 if self.dead || self.rx.is_none() {
@@ -705,12 +730,16 @@ impl Engine for RecvEngine {
                 }
                 let now: i64 = t[2].parse().unwrap_or(0);
                 // `1`: every time-out has elapsed (1 ms time-outs, sleep here); `T../F..`: the generator slept
-                // between groups of pushes itself (40 ms time-outs); `0`: nothing elapsed
+                // between groups of pushes itself (500 ms time-outs); `0`: nothing elapsed
                 let stale = t[3] == "1";
                 if stale {
                     std::thread::sleep(Duration::from_millis(3));
                 }
                 self.sh.cleanup(t[3]);
+                if stale && self.cfg.obj_to {
+                    // every object and every unfinished instance has timed out: no announcement explains heap any more
+                    self.ann.clear();
+                }
                 let rx = self.rx.as_mut().unwrap();
                 let (r, evs, dt) = Self::call(rx, true, |r| {
                     r.cleanup(st(now));
@@ -728,8 +757,13 @@ impl Engine for RecvEngine {
                     let rx = self.rx.as_ref().unwrap();
                     // ---- C17: ... no FDT instance is still under reception (every one of them is older than
                     //      the object time-out; complete ones have left `fdt_receivers` when they completed)
-                    let pr = probe::probe(&format!("{:?}", rx.r));
-                    let fr: usize = pr.split(' ').find_map(|x| x.strip_prefix("fr=")).and_then(|x| x.parse().ok()).unwrap_or(0);
+                    let fr = match probe::probe_num(&format!("{:?}", rx.r), "fr") {
+                        Ok(n) => n,
+                        Err(field) => {
+                            o.fail("harness:scrape-miss", &format!("the Debug output of Receiver has no `{}`", field));
+                            0
+                        }
+                    };
                     if fr != 0 {
                         o.fail("C17:fdt-instance-kept-after-timeout", &format!("{} FDT instances still registered in fdt_receivers after a cleanup with the object time-out elapsed", fr));
                     }
@@ -785,6 +819,22 @@ impl Engine for RecvEngine {
                             o.fail(&full("not-delivered"), &format!("TOI {} expected complete, history new={} complete={} error={} interrupted={}", toi, h.new, h.complete, h.error, h.interrupted));
                         } else if h.bytes != len * h.complete as u64 && h.error == 0 && h.interrupted == 0 {
                             o.fail(&full("wrong-length"), &format!("TOI {} delivered {} bytes, expected {}", toi, h.bytes, len));
+                        }
+                    }
+                    "b" => {
+                        // bytes held by the FDT writers (fdt_receivers + fdt_current) at most this many
+                        let want: usize = t.get(4).and_then(|x| x.parse().ok()).unwrap_or(0);
+                        if let Some(rx) = self.rx.as_ref() {
+                            let fb = match probe::probe_num(&format!("{:?}", rx.r), "fb") {
+                                Ok(n) => n,
+                                Err(field) => {
+                                    o.fail("harness:scrape-miss", &format!("the Debug output of Receiver has no `{}`", field));
+                                    0
+                                }
+                            };
+                            if fb > want {
+                                o.fail(&full("fdt-bytes"), &format!("{} B held by FDT writers, expected at most {}", fb, want));
+                            }
                         }
                     }
                     "n" => {
